@@ -403,6 +403,16 @@ func genC06Case(t *rapid.T) mutCase {
 			wire, muts = gen.MutateWire(t, seed, n, gen.MutOpts{Key: true})
 		}
 		return mutCase{SeedKind: -2, Seed: seed, Wire: wire, Muts: muts}
+	case 5:
+		// a reference-built hash envelope (conforming or with governed labels moved around), possibly mutated
+		hc := genC12VerifyCase(t)
+		seed := c12Envelope(&hc)
+		wire := seed
+		var muts []gen.Mutation
+		if n := rapid.SampledFrom([]int{0, 1, 1, 2}).Draw(t, "nfaults"); n > 0 {
+			wire, muts = gen.MutateWire(t, seed, n, gen.MutOpts{})
+		}
+		return mutCase{SeedKind: refcose.KSign1, Seed: seed, Wire: wire, Muts: append(muts, gen.Mutation{Op: "hash-envelope-seed"})}
 	case 4:
 		// deep nesting / huge declared lengths
 		d := rapid.IntRange(1, 300).Draw(t, "depth")
